@@ -211,8 +211,12 @@ class LocalDirectoryContext(Context):
                         lines.append(line)
                 if not found:
                     lines.append(f'{name} {annotation}\n')
-            with open(path, 'w') as fh:
+            # NOTE: Replace the file atomically so that an interrupted write cannot lose
+            # the annotations of the other models
+            tmp_path = path.with_suffix('.tmp')
+            with open(tmp_path, 'w') as fh:
                 fh.writelines(lines)
+            os.replace(tmp_path, path)
 
     def retrieve_annotation(self, name: str) -> str:
         path = self._annotations_path
